@@ -139,6 +139,18 @@ def run_engine_check(pid, tier, seed, wd):
     log("[%s] TLC proved %s on %d states / %d transitions (%.0fs)" %
         (pid, spec["props"], mc["distinct"], mc["generated"], mc["wall_s"]))
 
+    if pid == "C16":
+        # design level: RefCell discipline of the thread-local engine (TLBorrow.tla): the repaired nesting
+        # cannot panic, the as-found nesting does (non-vacuity)
+        for asfound, expect_ok in ((False, True), (True, False)):
+            bcfg = os.path.join(wd, "TLBorrow_%s.cfg" % asfound)
+            write_cfg(bcfg, "Spec", {"AsFound": asfound}, invariants=["NoPanic", "AllReleased"])
+            br = tlc_mc("TLBorrow", bcfg, "C16_tlborrow_%s" % asfound, workers=2, timeout=300)
+            if br["ok"] != expect_ok:
+                raise ToolError("TLBorrow.tla: AsFound=%s gave ok=%s" % (asfound, br["ok"]))
+        info["tlborrow"] = "NoPanic proved for the repaired borrow nesting, refuted for the as-found one"
+        log("[C16] TLBorrow.tla: no re-borrow panic in the repaired nesting; the as-found nesting is refuted")
+
     # ------------------------------------------------------------------ 2. edge conformance
     cfgs_a = [c for c in cfg_list(spec) if c["ttl"] == 0]
     cfgs_b = [c for c in cfg_list(spec) if c["ttl"] != 0]
